@@ -245,7 +245,9 @@ def _count(ctx, fi):
     for r in walk_local(fi.node):
         if isinstance(r, ast.Return) and isinstance(r.value, ast.Name):
             result = r.value.id
-    outer = next((n for n in fi.node.body if isinstance(n, ast.For)), None)
+    # the capacity loop: the top-level loop that contains the work-list loop (role, not position)
+    outer = next((n for n in fi.node.body if isinstance(n, ast.For) and any(isinstance(x, ast.While) for x in ast.walk(n))), None) \
+        or next((n for n in fi.node.body if isinstance(n, ast.For) and src(n.iter) == fi.params[1]), None)
     if result is None or outer is None:
         raise AnalysisError(f"{FN}: result list / capacity loop not found")
     tc = TypeCase(p, fi, set(), None)
@@ -253,7 +255,7 @@ def _count(ctx, fi):
     rng = events_matching(exits, lambda e: e[0] == "append" and e[1] == result, kinds=("end", "continue", "break"))
     ctx.check(rng is not None and rng[1] <= 1, "COUNT", f"{FN}: at most one piece appended per capacity {rng}", function=FN,
               construct="more than one piece can be appended for a single capacity", message=f"{rng}", file=fi.file, node=outer)
-    after = [s for s in fi.node.body if getattr(s, "lineno", 0) > outer.lineno]
+    after = [s for s in fi.node.body if getattr(s, "lineno", 0) > outer.end_lineno]
     tc2 = TypeCase(p, fi, set(), None)
     exits2 = tc2.run_body(after)
     rng2 = events_matching(exits2, lambda e: e[0] == "append" and e[1] == result, kinds=("end", "return"))
